@@ -136,12 +136,24 @@ theorem switch_ok {p : PState} (h : Rel p) (m' : Nat) (hfresh : ∀ x ∈ p.d.ma
     simp only [opsOf, List.foldl_cons, List.foldl_nil]
     rw [hd2]
     rfl
-  refine ⟨?_, ?_⟩
+  have hR1 : Rel { s := p.s, d := apply p.d (.createManifest m'), c := p.c } := by
+    rw [apply_createManifest]
+    exact rel_other_manifests h _ (nodup_update _ _ _ h.wf.1)
+      (by show lookup (update p.d.manifests m' []) p.c.manifest = _
+          rw [lookup_update, if_neg hmm])
+  refine ⟨?_, ?_, ?_⟩
   · rw [hfold]
     simp only [opsOf]
     rw [runOk_cons hok1, runOk_cons hok2, hd2, runOk_cons hok3, apply_setCurrent,
       runOk_cons hok4, apply_removeManifest]
     rfl
   · rw [hfold]; exact hR4
+  · simp only [opsOf]
+    refine Chain.cons _ _ _ (Or.inl h) hok1 (Chain.cons _ _ _ (Or.inl hR1) hok2 ?_)
+    rw [hd2]
+    refine Chain.cons _ _ _ (Or.inl hR2) hok3 ?_
+    rw [apply_setCurrent]
+    refine Chain.single (Or.inr hR3) hok4 (Or.inr ?_)
+    rw [apply_removeManifest]; exact hR4
 
 end Rain.Persist.Lemmas
